@@ -19,3 +19,7 @@ def run(ctx):
                   "constants anchored in the data; 1-3 FROM graphs with overlapping contents; global BEFORE/AFTER/BETWEEN")
     ctx.assumptions += ["D3 (domain of C03_select_is_solutions_partial) is a boolean predicate over (clauses, graphs); outside D3 the "
                         "deviations are the listed findings"]
+
+
+def search(ctx, broken):
+    return pc.search_crash(ctx, "c03")
